@@ -9,7 +9,7 @@ from ..core import hexs, unhex, sx_parse, sx_str
 from ..runner import Stream
 
 ID = "C17"
-AREAS = ["aottext"]
+AREAS = ["aottext", "fish"]
 RULE = ("esc: every string over the boundary alphabet {' \" \\ $ ( ) ` [ ] : LF CR TAB SP a e-acute U+2018 U+2019 "
         "U+201A U+201B #} up to a length bound (sampled at the longest length) x every escape function, plus random "
         "longer strings; script: random command trees (depth <= 3; flags, options with and without possible values, "
@@ -511,6 +511,31 @@ def gen_script(tier, rng):
     return cases, dist
 
 
+# ---- fish generator model ----
+def fish_model_streams(tier, rng):
+    """the byte-exact Gallina model of fish.rs (Complete/FishModel.v, driver ocaml/fish_driver.ml) against the real
+    generator on trees whose every text slot carries adversarial text: both files of the `script` mode (the texts as
+    given / innocuous text of the same emptiness) are compared byte for byte"""
+    dist = {}
+    g = TreeGen(rng, dist)
+    cases = []
+    for t in HAND[::2] if tier == "quick" else HAND:
+        h = hexs(t)
+        cases.append("(script fish (cmd app (about %s) (arg a1 (short x61) (long lo-ng1) (help %s)) "
+                     "(arg a2 (long lo-ng2) (takes) (pv v1 %s) (pvhide v2 %s) (pv v3) (help %s)) (arg a3 (pos) (help %s)) "
+                     "(sub (cmd sub-c1 (about %s) (alias sal1) (arg a4 (short x62) (global) (help %s)) "
+                     "(sub (cmd sub-c2 (about %s) (sub (cmd sub-c3 (about %s) (arg a5 (short x63) (help %s))))))))))"
+                     % ((h,) * 11))
+    for _ in range(120 if tier == "quick" else 2500):
+        g.n = 0
+        g.global_shorts = list("0123456789")
+        cases.append("(script fish %s)" % g.cmd("app", 0))
+    return [Stream("fish-model", cases, oracle=script_oracle, area="fish", nontrivial=script_nontrivial,
+                   describe={"slot x character class (texts generated)": dict(sorted(dist.items())),
+                             "trees": len(cases)})]
+# ---- end fish generator model ----
+
+
 def streams(tier, rng):
     esc = gen_esc(tier, rng)
     lexport = gen_lexport(tier, rng)
@@ -532,7 +557,7 @@ def streams(tier, rng):
         Stream("script", script, oracle=script_oracle, area=None, nontrivial=script_nontrivial,
                describe={"slot x character class (texts generated)": dict(sorted(dist.items())),
                          "shells": SHELLS, "trees": len(script) // len(SHELLS)}),
-    ]
+    ] + fish_model_streams(tier, rng)
 
 
 def classify_known(stream, case, impl, failure):
